@@ -59,7 +59,22 @@ def c_tail_view(x):
     return np.asarray(x)[-3:]
 
 
-CALCS = {"mean_var_max": (c_mean_var_max, 3), "first_last": (c_first_last, 2), "quartiles": (c_quartiles, 4),
+_MEMO = {}
+
+
+def c_memo(x):
+    """A calculator that memoises its results per input (a user saving the cost of re-computing the real moments): the very
+    same array object is handed out again for equal input."""
+    a = np.asarray(x, dtype=float)
+    key = a.tobytes()
+    if key not in _MEMO:
+        if len(_MEMO) > 200:
+            _MEMO.clear()
+        _MEMO[key] = np.array([np.mean(a), np.var(a), np.max(a)])
+    return _MEMO[key]
+
+
+CALCS = {"memo": (c_memo, 3), "mean_var_max": (c_mean_var_max, 3), "first_last": (c_first_last, 2), "quartiles": (c_quartiles, 4),
          "tail_view": (c_tail_view, 3)}
 
 
@@ -185,7 +200,8 @@ def kcopy(a):
 def weights_spec(draw, d, allow_none=True, extreme=False):
     if allow_none and draw(st.integers(0, 2)) == 0:
         return None
-    el = st.sampled_from([0.0, 1.0, 0.5, 2.0, 0.25, -1.0, 1.0, 2.0] if extreme else [1.0, 0.5, 2.0, 0.25, 3.0, 1.0, 2.0])
+    el = st.sampled_from([0.0, 1.0, 0.5, 2.0, 0.25, -1.0, 1.0, 2.0, 1e-9, 1e-12, 1e9] if extreme
+                         else [1.0, 0.5, 2.0, 0.25, 3.0, 1.0, 2.0])
     return draw(st.lists(el, min_size=d, max_size=d))
 
 
@@ -206,7 +222,7 @@ def loss_spec(draw, d, n, kind=None, nonneg_weights=True):
     if kind == "minkowski":
         spec["p"] = draw(st.sampled_from([1, 2, 3, 1.5, 4, 0.5, 2.0]))
     elif kind == "msm":
-        calc = draw(st.sampled_from([None, None, "mean_var_max", "first_last", "quartiles", "tail_view"]))
+        calc = draw(st.sampled_from([None, None, "mean_var_max", "first_last", "quartiles", "tail_view", "memo"]))
         spec["calc"] = calc
         k = 18 if calc is None else CALCS[calc][1]
         cov = draw(st.sampled_from(["identity", "inverse_variance", "matrix"]))
